@@ -27,7 +27,7 @@ Definition fb_passed (m : Z) (l : glocal) : Prop :=
 Ltac gsimpl :=
   cbn [holds_run holds_fb obs_run obs_fb run_le fb_le andb b2z run_passed fb_passed
        rejecting_run rejecting_fb is_setter fst snd
-       g_cmds g_max g_fbs g_fbmax g_fbdis g_timeout set_cmds set_fbs] in *.
+       g_cmds g_max g_fbs g_fbmax g_fbdis g_timeout g_cfgheld set_cmds set_fbs] in *.
 Ltac gifs :=
   repeat match goal with |- context [if ?b then _ else _] => destruct b eqn:? end.
 Ltac gcases := gifs; gsimpl; unfold b2z; gifs.
@@ -73,7 +73,7 @@ Proof.
   destruct lo as [run fb pc | tm m fm fd n | n].
   - destruct pc; destruct run; destruct fb; cbn [gstep1] in Ht;
       inversion Ht; subst; clear Ht; gsimpl; gcases; lia.
-  - destruct n as [|[|[|[|n]]]]; cbn [gstep1] in Ht; inversion Ht; subst; clear Ht; gsimpl; lia.
+  - destruct n as [|[|[|[|[|[|[|n]]]]]]]; cbn [gstep1] in Ht; try (destruct (g_cfgheld sh)); inversion Ht; subst; clear Ht; gsimpl; lia.
   - destruct n as [|[|n]]; cbn [gstep1] in Ht; inversion Ht; subst; clear Ht; gsimpl; lia.
 Qed.
 
